@@ -982,3 +982,6 @@ REPLAY = {"scope": replay_scope, "scope-access": replay_scope, "src": c13.replay
 
 from suites import thorough as _th
 GROUPS["thorough:scope-programs"] = _th.bounded_from_replay("bounded/scope-programs", replay_scope)
+from suites import progenum as _pg
+GROUPS["thorough:enum-expressions-in-scopes"] = _th.only_thorough(_pg.g_f8)
+GROUPS["thorough:enum-binding-forms"] = _th.only_thorough(_pg.g_f4)
